@@ -126,10 +126,10 @@ pub enum Op {
     /// here, i.e. somewhere inside its next operation
     StallSelf { ns: u64, skip: u32 },
     /// while this client holds the reference of its next `get`/`get_mut` hit it also performs
-    /// `what` (0 = close(), 1 = max_cost(), 2 = update_max_cost(v)) - operations that take no
+    /// `what` (0 = close(), 1 = max_cost(), 2 = update_max_cost(v), 3 = insert_if_present(key v of another shard), 4 = get_ttl(key v of another shard)) - operations that take no
     /// shard lock and therefore must not care about the held reference
     WhileHolding { what: u8, v: i64 },
-    /// fault (async flavour): the future of this client's next remove / wait / clear is dropped
+    /// fault (async flavour): the future of this client's next remove / wait / clear / close is dropped
     /// once it has been pending more than `after` times, as a timeout or select! would do
     CancelNext { after: u32 },
     /// fault: the cache processor sleeps `ns` of virtual time at its (`skip`+1)-th scheduling
